@@ -1532,6 +1532,9 @@ def h_builder_clear(which, k):
     else:
         obls += [('a tuple builder that waits for its field count has no field builders', z3.And(o.cells[fo[3]][0] == -1, vsize(fo[2]) != 0)),
                  ('after clear no tuple has been closed and none is open', z3.Or(o.cells[fo[3]][0] != -1, o.cells[fo[4]][0] != 0))]
+    # what the builder reports as its length afterwards (a value of another type arriving next builds a union around it with that many entries)
+    out2 = m.call('_ZNK7awkward%s6lengthEv' % ('13RecordBuilder' if which == 'record' else '12TupleBuilder'), [this])
+    obls.append(('a cleared builder reports length 0', z3.Or(out2.raised, out2.ret != 0)))
 
     def replay(model, ent_):
         import subprocess, os
@@ -1561,6 +1564,10 @@ int main(int argc, char** argv) {
     int bad = (ja != jf) ? 1 : 0;
     if (!ta.empty()) bad |= 2;
     if (a.snapshot().get()->classname() != f.snapshot().get()->classname()) bad |= 4;
+    // a value of another type after clear: the cleared builder is wrapped in a union and must count as empty
+    ArrayBuilder c(ArrayBuilderOptions(8, 1.5));
+    fill(c, 0); c.clear(); c.integer(5);
+    if (c.snapshot().get()->tojson(false, -1) != "[5]") bad |= 16;
     printf("bad=%d cleared=%s fresh=%s\n", bad, ja.c_str(), jf.c_str());
     return bad ? 1 : 0;
   } catch (std::exception& e) { printf("bad=8 raised %.60s\n", e.what()); return 1; }
@@ -1574,7 +1581,7 @@ int main(int argc, char** argv) {
                            env=dict(os.environ, ASAN_OPTIONS='detect_leaks=0', UBSAN_OPTIONS='halt_on_error=1:exitcode=87'), errors='replace')
         payload = dict(which=which, fields=k, native=r.stdout.strip()[:300])
         if r.returncode != 0:
-            return True, '%s builder with %d fields: fill, clear, fill again vs a fresh builder: %s %s (1 = different value, 4 = different type, crash otherwise)' % (
+            return True, '%s builder with %d fields: fill, clear, fill again vs a fresh builder: %s %s (1 = different value, 4 = different type, 16 = a number appended after clear is not reproduced, crash otherwise)' % (
                 which, k, r.stdout.strip()[:200], [l[:140] for l in r.stderr.splitlines() if 'ERROR' in l or 'runtime error' in l][:1]), payload
         return False, 'native builders agree (%s)' % r.stdout.strip()[:120], payload
     return mdischarge(m, '%sBuilder::clear with %d fields' % ('Record' if which == 'record' else 'Tuple', k), obls, [], replay=replay,
